@@ -1,3 +1,4 @@
 /- C04 helper lemmas: L1 unsafe_set_size, L2 loops (fill/copy/swap_ranges), L3 rotate (needs Mathlib.Data.List.Rotate),
-   L4–L7 one lemma per member (`…_rep`), L8 the clamped semantics and `fits → clamped = std`. -/
+   L4–L7 one lemma per member (`…_rep`), L8 the clamped semantics and `fits → clamped = std`, L9 the compare clamps. -/
 import TetlProofs.C04.L8
+import TetlProofs.C04.L9
